@@ -68,7 +68,9 @@ ASSUME \A y \in -1000..4500 : DaysBeforeYear(y + 1) - DaysBeforeYear(y) = YearLe
 
 \* day number: days since 1700-01-01 of the d-th day (d may be any integer:
 \* overflowed days count on from the first of the month) of month m in 1..12
-DayNum3(y, m, d) == DaysBeforeYear(y) - DaysBeforeYear(MinYear) + DaysBeforeMonth(y, m) + d - 1
+Base == DaysBeforeYear(MinYear)                 \* a constant: evaluated once by TLC
+YearStart(y) == DaysBeforeYear(y) - Base        \* day number of y-01-01
+DayNum3(y, m, d) == YearStart(y) + DaysBeforeMonth(y, m) + d - 1
 DayNum(t) == DayNum3(Yr(t), Mon(t), Day(t))
 
 \* the date of a day number: the unique <<y, m, d>> with 1 <= d <= DaysInMonth
@@ -77,14 +79,16 @@ DayNum(t) == DayNum3(Yr(t), Mon(t), Day(t))
 \* 146097 * 400) and then CHOSEN by the defining condition; no candidate =
 \* TLC error, so the estimate is checked wherever it is used
 YearOfDay(n) == LET e == MinYear + (n \div 146097) * 400 + ((n % 146097) * 400) \div 146097 IN
-                CHOOSE y \in (e - 1)..(e + 1) : DayNum3(y, 1, 1) <= n /\ n < DayNum3(y + 1, 1, 1)
+                CHOOSE y \in (e - 1)..(e + 1) : YearStart(y) <= n /\ n < YearStart(y + 1)
 \* (TLC re-evaluates a LET definition at every use; values that are used several
 \* times are therefore bound with  CHOOSE r \in {f(x) : x \in {e}} : TRUE, which
 \* evaluates e once.  Only(S) = the element of a singleton.)
 Only(S) == CHOOSE x \in S : TRUE
-MonthOfDay(y, k) == CHOOSE m \in 1..12 : DaysBeforeMonth(y, m) <= k /\ k < DaysBeforeMonth(y, m + 1)
+\* months have 28..31 days, so month m of the 0-based day k satisfies k/31 < m <= k/28 + 1
+MonthOfDay(y, k) == CHOOSE m \in (k \div 32 + 1)..(IF k >= 308 THEN 12 ELSE k \div 28 + 1) :
+                        DaysBeforeMonth(y, m) <= k /\ k < DaysBeforeMonth(y, m + 1)
 DateYK(y, k) == Only({<<y, m, k - DaysBeforeMonth(y, m) + 1>> : m \in {MonthOfDay(y, k)}})  \* k = 0-based day of the year
-DateInYear(n, y) == Only({DateYK(y, k) : k \in {n - DayNum3(y, 1, 1)}})
+DateInYear(n, y) == Only({DateYK(y, k) : k \in {n - YearStart(y)}})
 DateOfDay(n) == Only({DateInYear(n, y) : y \in {YearOfDay(n)}})
 
 \* well-formed = a date of the calendar (any year), in range = a SuDate value of
@@ -179,13 +183,14 @@ JulianDay(t) == LET a == (14 - Mon(t)) \div 12
 
 \* SuDate.String as a sequence of character codes: "#yyyymmdd", then nothing if
 \* the time is 00:00:00.000, else ".hhmm", "ss" unless s = ms = 0, "mmm" unless ms = 0
-Pow10(e) == IF e = 0 THEN 1 ELSE IF e = 1 THEN 10 ELSE IF e = 2 THEN 100 ELSE 1000
-Dig(n, k) == [i \in 1..k |-> 48 + ((n \div Pow10(k - i)) % 10)]
-Literal(t) == <<35>> \o Dig(Yr(t), 4) \o Dig(Mon(t), 2) \o Dig(Day(t), 2) \o
+Dig2(n) == <<48 + n \div 10, 48 + (n % 10)>>
+Dig3(n) == <<48 + n \div 100, 48 + ((n \div 10) % 10), 48 + (n % 10)>>
+Dig4(n) == <<48 + n \div 1000, 48 + ((n \div 100) % 10), 48 + ((n \div 10) % 10), 48 + (n % 10)>>
+Literal(t) == <<35>> \o Dig4(Yr(t)) \o Dig2(Mon(t)) \o Dig2(Day(t)) \o
               (IF Hr(t) = 0 /\ Mnt(t) = 0 /\ Sec(t) = 0 /\ Msec(t) = 0 THEN <<>>
-               ELSE <<46>> \o Dig(Hr(t), 2) \o Dig(Mnt(t), 2) \o
+               ELSE <<46>> \o Dig2(Hr(t)) \o Dig2(Mnt(t)) \o
                     (IF Sec(t) = 0 /\ Msec(t) = 0 THEN <<>>
-                     ELSE Dig(Sec(t), 2) \o (IF Msec(t) = 0 THEN <<>> ELSE Dig(Msec(t), 3))))
+                     ELSE Dig2(Sec(t)) \o (IF Msec(t) = 0 THEN <<>> ELSE Dig3(Msec(t)))))
 
 ----------------------------------------------------------------------------
 (* The literal format (DateFromLiteral): [#]yyyymmdd[.hhmm[ss[mmm]]] *)
